@@ -85,6 +85,7 @@ def valid(spec):
 def canon(spec):
     s = copy.deepcopy(spec)
     s["cells"] = sorted(s["cells"])
+    s["removed"] = sorted(r for r in s.get("removed", []) if r not in s["cells"])
     return json.dumps(s, sort_keys=True)
 
 
@@ -108,8 +109,11 @@ def build(spec, _pollute=True):
     im.compose.id, im.compose.type, im.compose.date, im.compose.respin = c["id"], c["type"], c["date"], c["respin"]
     im.compose.label, im.compose.final = c["label"], c["final"]
     objs = [mk_image(im, s) for s in spec["images"]]
-    for v, a, i in spec["cells"]:
+    for v, a, i in spec["cells"] + spec.get("removed", []):
         im.add(v, a, objs[i])
+    for v, a, i in spec.get("removed", []):
+        if [v, a, i] not in spec["cells"]:
+            im.images[v][a].discard(objs[i])           # taken out again: the cell may stay behind empty
     return im
 
 
@@ -179,6 +183,9 @@ def edits(spec, seed=0):
         for i in range(n):
             if [v, a, i] not in spec["cells"] and count < 3:
                 out.append(["alias", i, v, a])
+    for v, a, i in spec["cells"]:
+        if len(spec["cells"]) > 1:
+            out.append(["unplace", v, a, i])
     for h in (None, "1.1", "1.2"):
         if spec["header"] != h:
             out.append(["hdr", h])
@@ -206,6 +213,9 @@ def apply_spec(spec, e):
         s["cells"].append([e[1], e[2], n])
     elif k == "alias":
         s["cells"].append([e[2], e[3], e[1]])
+    elif k == "unplace":
+        s["cells"].remove([e[1], e[2], e[3]])
+        s.setdefault("removed", []).append([e[1], e[2], e[3]])
     elif k == "hdr":
         s["header"] = e[1]
     elif k == "label":
@@ -244,6 +254,10 @@ def apply_obj(im, e, spec_before):
         im.add(e[1], e[2], mk_image(im, imgspec(n, path="%s/%s/iso/img-%d.iso" % (e[1], e[2], n))))
     elif k == "alias":
         im.add(e[2], e[3], objs_of(e[1])[0])
+    elif k == "unplace":
+        for o in objs_of(e[3]):
+            if o in im.images[e[1]][e[2]]:
+                im.images[e[1]][e[2]].discard(o)
     elif k == "hdr":
         pass                                   # a re-read manifest always carries the current version
     elif k == "label":
